@@ -14,7 +14,7 @@ import (
 
 func TestMain(m *testing.M) {
 	document.SetGlobalLevel(document.LogLevelSilent)
-	kit.TestMain(m, 700, 6000)
+	kit.TestMain(m, 1400, 15000)
 }
 
 var (
